@@ -1,1 +1,109 @@
-//! C08 — (harnesses not written yet)
+//! C08 — shapes and attribute rows stay paired one-to-one through write (write side only).
+//!
+//! The complete `Writer` with the real `dbase::TableWriter` (only stub: the clock read for
+//! the .dbf header date). The read side needs `dbase::Reader::new`, whose symbolic
+//! execution did not finish (900 s for a one-row table): outside the claim.
+use crate::env::*;
+use crate::model::*;
+use crate::refcodec::*;
+use shapefile::dbase::{FieldIOError, FieldWriter, TableWriterBuilder, WritableRecord};
+use shapefile::*;
+use std::convert::TryFrom;
+use std::io::Write;
+
+fn fixed_now() -> time::OffsetDateTime {
+    time::OffsetDateTime::UNIX_EPOCH
+}
+
+/// Row carrying its own index in one Integer field. mode 0: well-formed; 1: writes no field;
+/// 2: writes a value of another field type.
+struct Row {
+    idx: i32,
+    mode: u8,
+}
+impl WritableRecord for Row {
+    fn write_using<'a, W: Write>(&self, fw: &mut FieldWriter<'a, W>) -> Result<(), FieldIOError> {
+        match self.mode {
+            0 => fw.write_next_field_value(&self.idx),
+            1 => Ok(()),
+            _ => fw.write_next_field_value(&1.5f64),
+        }
+    }
+}
+
+/// Outcome classes of one write_shape_and_record call.
+#[derive(Clone, Copy, PartialEq)]
+pub enum Call {
+    Valid,
+    OtherShapeType,
+    RowWithoutField,
+    RowWrongType,
+}
+
+pub fn pairing(calls: &[Call]) {
+    const N: usize = 320;
+    let mut shp = MemFile::<N>::new();
+    let mut shx = MemFile::<N>::new();
+    let mut dbf = MemFile::<N>::new();
+    let mut expect_pairs = 0usize;
+    {
+        let sw = ShapeWriter::with_shx(&mut shp, &mut shx);
+        let tw = TableWriterBuilder::new()
+            .add_integer_field(shapefile::dbase::FieldName::try_from("idx").unwrap())
+            .build_with_dest(&mut dbf);
+        let mut w = Writer::new(sw, tw);
+        // the first call is always a valid Point pair, so the file type is Point
+        let mut k = 0;
+        while k < calls.len() {
+            let p = Point::new(any_f64(), any_f64());
+            let r = match calls[k] {
+                Call::Valid => w.write_shape_and_record(&p, &Row { idx: k as i32, mode: 0 }),
+                Call::OtherShapeType => w.write_shape_and_record(&PointM::new(1.0, 2.0, 3.0), &Row { idx: k as i32, mode: 0 }),
+                Call::RowWithoutField => w.write_shape_and_record(&p, &Row { idx: k as i32, mode: 1 }),
+                Call::RowWrongType => w.write_shape_and_record(&p, &Row { idx: k as i32, mode: 2 }),
+            };
+            if calls[k] == Call::Valid {
+                assert!(r.is_ok(), "a valid pair was refused");
+                expect_pairs += 1;
+            } else {
+                assert!(r.is_err(), "an invalid pair was accepted");
+            }
+            std::mem::forget(r);
+            k += 1;
+        }
+    }
+    // entry counts of the three files
+    let shp_records = match walk_shp(&shp.buf, shp.len) {
+        Some(w) => w.n,
+        None => {
+            assert!(false, ".shp is not well-formed");
+            0
+        }
+    };
+    let shx_entries = (shx.len - 100) / 8;
+    let dbf_rows = u32::from_le_bytes([dbf.buf[4], dbf.buf[5], dbf.buf[6], dbf.buf[7]]) as usize;
+    assert!(shp_records == shx_entries, ".shp and .shx entry counts differ");
+    assert!(shp_records == dbf_rows, "a failed call left the .shp/.shx and the .dbf with different entry counts");
+    assert!(dbf_rows == expect_pairs, "the number of rows differs from the number of accepted pairs");
+    kani::cover!(true, "three files compared");
+}
+
+macro_rules! pr {
+    ($name:ident, $calls:expr) => {
+        #[kani::proof]
+        #[kani::unwind(34)]
+        #[kani::stub(time::OffsetDateTime::now_utc, fixed_now)]
+        fn $name() {
+            pairing(&$calls);
+        }
+    };
+}
+use Call::*;
+// H: tier=quick; unwind=34; sym=Point coordinates; history=[valid, valid]; asserts=2 records, 2 index entries, 2 rows
+pr!(c08_q_valid_valid, [Valid, Valid]);
+// H: tier=quick; unwind=34; sym=Point coordinates; history=[valid, shape of another type, valid]; asserts=the rejected call leaves the three files with equal counts (2 at the end)
+pr!(c08_q_valid_othertype_valid, [Valid, OtherShapeType, Valid]);
+// H: tier=quick; unwind=34; sym=Point coordinates; history=[valid, row that writes no field]; asserts=the failed call leaves equal entry counts in .shp, .shx and .dbf
+pr!(c08_q_valid_rowwithoutfield, [Valid, RowWithoutField]);
+// H: tier=quick; unwind=34; sym=Point coordinates; history=[valid, row with a value of the wrong field type, valid]; asserts=equal entry counts after the failed call and at the end
+pr!(c08_q_valid_rowwrongtype_valid, [Valid, RowWrongType, Valid]);
